@@ -53,10 +53,17 @@ FootprintOK(e) ==
 
 \* C20: free zeroes the whole public state object; clean zeroes exactly the requested bytes
 IsFree(e) == e.e \in {"HFree", "HmFree", "HkFree", "PFree"}
-StateSize(e) == CASE e.e = "HFree" -> 56 [] e.e = "HmFree" -> 56 [] e.e = "HkFree" -> 72 [] e.e = "PFree" -> 96
+\* size = sizeof the public state type in the header the harness was compiled against (56/56/72/96 today)
+\* DeadState: the state object an all-in-one function kept on its own stack.  maxrun is the longest non-trivial stretch
+\* of the image the object had just before its free that is found in the dead stack after the call.  Single values of
+\* the algorithm (a digest, a block: at most MaxUnit bytes) may survive as scratch copies - those are not the object -
+\* but a longer stretch is (part of) the object itself and must have been wiped ("same": the image stems from the same
+\* computation; "dirty": the call did run over the poisoned region; windows > 0: the search was not vacuous).
+MaxUnit == 32
 EraseOK(e) ==
-    CASE IsFree(e)        -> e.nonzero = 0 /\ e.size = StateSize(e) /\ e.canary = 1
+    CASE IsFree(e)        -> e.nonzero = 0 /\ e.size >= 1 /\ e.canary = 1
       [] e.e = "Clean"    -> e.nonzero = 0 /\ e.canary = 1
+      [] e.e = "DeadState" -> e.maxrun <= MaxUnit /\ e.windows > 0 /\ e.same = 1 /\ e.dirty = 1
       [] OTHER            -> TRUE
 
 \* C07: no branch or address inside the call depended on a secret.  The accept/reject verdict of a decryption is
